@@ -10,6 +10,7 @@
      single-word corruption of encoded tables; ShaperSafetyTrace.tla validates every recorded call:
      no panic, terminated, text conserved, length bound, result equal to the fresh-object result.
 """
+import concurrent.futures
 import json
 import os
 import random
@@ -32,6 +33,8 @@ MANIFEST = {
 }
 
 FIXED_POOL = [[1], [1, 2], [2, 1], [1, 2, 1], [4, 1, 4, 2], [1, 4, 4, 2]]
+# for the sibling-filter subjects: the two inputs exercise different nested lookups first
+SIB_POOL = [[1, 4, 1], [1, 5, 1], [2, 5, 2], [2, 4, 2], [1, 4, 1, 2, 5, 2], [2, 5, 2, 1, 4, 1]]
 
 
 def _cfg_live(base):
@@ -132,14 +135,19 @@ def run(ctx):
     nest = [c for c in sc.build(["ctxnest"]) if [a["idx"] for a in c["ll"][0]["subs"][0]["rules"][0]["acts"]] == [2, 0]]
     # cursive attachment (GPOS 3) has no reference semantics in Shaper.tla (C06 does not quantify over it) but is
     # inside this property's quantifier: all of its shapes are always included
-    must = [c for c in others if multi_lig(c)] + nest + sc.build(["curs"])
+    # sibling nested lookups that differ only in the mark filtering set / attachment type (a filter remembered by
+    # flag bits alone would make the result depend on which input came first)
+    sib = [c for c in sc.build(["ctxfilt"]) if len(c["ll"]) == 3 and "mark" in c["ll"][0]["flags"]
+           and c["ll"][1]["subs"][0]["k"] == "lig" and c["ll"][2]["subs"][0]["k"] == "lig"
+           and c["ll"][1]["flags"] == c["ll"][2]["flags"]]
+    must = [c for c in others if multi_lig(c)] + nest + sc.build(["curs"]) + sib
     others = must + [c for c in others if not multi_lig(c)][:ctx.pick(45, 600)]
     rnd = [sc.random_case(rng, 0, 6) for _ in range(ctx.pick(40, 400))]
     cases = []
-    for c in mal + others + rnd:
-        c = dict(c)
+    for c0 in mal + others + rnd:
+        c = dict(c0)
         c["id"] = len(cases) + 1
-        pool = [list(p) for p in FIXED_POOL]
+        pool = [list(p) for p in (SIB_POOL if any(c0 is x for x in sib) else FIXED_POOL)]
         # one medium random string and one of length 200 over the full glyph-id range
         pool.append([rng.choice([1, 2, 3, 4, 5, 6]) for _ in range(rng.randint(0, 40))])
         pool.append([rng.choice([1, 2, 3, 4, 5, 6, 1, 2, 4, 0, 7, 300, 65535]) for _ in range(200)])
@@ -168,7 +176,9 @@ def run(ctx):
                       case={"mode": "history", "case": c, "event": again})
 
     step = 40
-    for k in range(0, len(cases), step):
+    first_sample = []
+
+    def hist_chunk(k):
         chunk = cases[k:k + step]
         cp = os.path.join(d, "cases%d.json" % k)
         json.dump(chunk, open(cp, "w"))
@@ -176,14 +186,33 @@ def run(ctx):
         ctx.run([binp, "history", cp, hpath, op], timeout=1200)
         evs = vlib.read_ndjson(op)
         if k == 0:
-            ctx.sample({"recorded_events": evs[1:4]})
+            first_sample.append(evs[1:4])
         _validate_all(ctx, evs, "ShaperSafetyTrace: histories on built tables %d" % k, rerun_history)
         os.remove(op)
 
+    pool_ex = concurrent.futures.ThreadPoolExecutor(max_workers=4)
+    hfuts = [pool_ex.submit(hist_chunk, k) for k in range(0, len(cases), step)]
+
     # tables delivered by the binary reader after single-word corruption
-    mcases = [c for c in cases if c["family"] != "random"][:ctx.pick(40, 250)]
-    for c in mcases:
-        c["inputs"] = c["inputs"][:3]
+    # stratified: the first case of every combination of subtable kinds (so that every reader path of every
+    # subtable format is a subject in every run), then the rest in order
+    def kinds(c):
+        return tuple(sorted({"%s%s%s" % (st["k"], st.get("fmt", ""), "c" if st.get("chain") else "")
+                             for L in c["ll"] for st in L["subs"]}))
+    # one subject per single subtable kind/format from the whole catalogue (whatever the seeded sample above
+    # contains), with inputs on which every kind of subtable gets to act
+    MPOOL = [[1, 2, 1, 1], [4, 1, 4, 2, 5, 4], [1, 4, 5, 5, 2, 1]]
+    whole = sc.build(["simple", "lig", "ctx", "chain", "gpos", "curs", "ctxnest"])
+    firsts, seen = [], set()
+    for c in sorted(whole, key=lambda c: len(json.dumps(c["ll"]))):
+        for k in kinds(c):
+            if k not in seen:
+                seen.update(kinds(c))
+                c = dict(c, id=5000 + len(firsts), inputs=[list(p) for p in MPOOL])
+                firsts.append(c)
+                break
+    nonrnd = [dict(c, inputs=c["inputs"][:3]) for c in cases if c["family"] != "random"]
+    mcases = (firsts + nonrnd)[:len(firsts) + ctx.pick(25, 250)]
     bym = {c["id"]: c for c in mcases}
 
     def rerun_mutant(head, bad, evs):
@@ -207,28 +236,50 @@ def run(ctx):
                       case={"mode": "mutants", "case": c, "tag": head.get("tag"), "event": bad})
 
     maxw = ctx.pick(25, 120)
-    mp = os.path.join(d, "mcases.json")
-    json.dump(mcases, open(mp, "w"))
-    mo = os.path.join(d, "mut-out.ndjson")
-    ctx.run([binp, "mutants", mp, mo, str(maxw)], timeout=1500)
-    evs = vlib.read_ndjson(mo)
-    summ = [e for e in evs if e["ev"] == "mutsummary"]
-    ctx.cov["mutants"] = summ[0] if summ else {}
-    # reader panics are C02's subject: recorded, not judged here
-    rp = [e for e in evs if e["ev"] == "readpanic"]
-    if rp:
-        ctx.notes.append("%d corrupted tables made gtab.Read panic (C02's subject), e.g. %s" % (len(rp), rp[0].get("site")))
-    evs = [e for e in evs if e["ev"] != "readpanic"]
-    CH = 60000
-    for k in range(0, len(evs), CH):
-        part = evs[k:k + CH]
-        # do not split a case: extend to the next reset
-        while k + len(part) < len(evs) and evs[k + len(part)]["ev"] not in ("reset", "mutsummary"):
-            part.append(evs[k + len(part)])
-        if part and part[0]["ev"] != "reset":
-            j = next((i for i, e in enumerate(part) if e["ev"] in ("reset", "mutsummary")), len(part))
-            part = part[j:]
-        _validate_all(ctx, part, "ShaperSafetyTrace: reader-delivered corrupted tables", rerun_mutant, maxiter=8)
+    NSH = 4
+    totals = {"mutants": 0, "accepted": 0, "live": 0}
+    nrp = []
+
+    def mut_shard(k):
+        shard = mcases[k::NSH]
+        if not shard:
+            return
+        mp = os.path.join(d, "mcases%d.json" % k)
+        json.dump(shard, open(mp, "w"))
+        mo = os.path.join(d, "mut-out%d.ndjson" % k)
+        ctx.run([binp, "mutants", mp, mo, str(maxw)], timeout=1500)
+        evs = vlib.read_ndjson(mo)
+        os.remove(mo)
+        for e in evs:
+            if e["ev"] == "mutsummary":
+                totals["mutants"] += e["mutants"]
+                totals["accepted"] += e["accepted"]
+                totals["live"] += e.get("live", 0)
+        # reader panics are C02's subject: recorded, not judged here
+        nrp.extend(e for e in evs if e["ev"] == "readpanic")
+        evs = [e for e in evs if e["ev"] != "readpanic"]
+        CH = 60000
+        k0 = 0
+        while k0 < len(evs):
+            part = evs[k0:k0 + CH]
+            # do not split a case: extend to the next reset
+            while k0 + len(part) < len(evs) and evs[k0 + len(part)]["ev"] not in ("reset", "mutsummary"):
+                part.append(evs[k0 + len(part)])
+            k0 += len(part)
+            _validate_all(ctx, part, "ShaperSafetyTrace: reader-delivered corrupted tables", rerun_mutant, maxiter=8)
+
+    mfuts = [pool_ex.submit(mut_shard, k) for k in range(NSH)]
+    for f in hfuts + mfuts:
+        f.result()
+    pool_ex.shutdown()
+    if first_sample:
+        ctx.sample({"recorded_events": first_sample[0]})
+    ctx.cov["mutants"] = dict(totals, ev="mutsummary")
+    if totals["live"] * 4 < totals["accepted"] or not totals["live"]:
+        raise vlib.Infra("reader-delivered tables are vacuous: only %d of %d accepted mutants have lookups" % (
+            totals["live"], totals["accepted"]))
+    if nrp:
+        ctx.notes.append("%d corrupted tables made gtab.Read panic (C02's subject), e.g. %s" % (len(nrp), nrp[0].get("site")))
 
     ctx.cov["distinct_nontrivial"] = len(cases) * len(hists) + int((ctx.cov.get("mutants") or {}).get("accepted", 0))
     ctx.cov["rule"] = ("one case = (tables, call history); tables: %d built (malformed shapes, catalogue sample, random) x "
